@@ -14,9 +14,13 @@
 (* the very actions that were model-checked on the abstract graphs - and   *)
 (* every recorded event has to match the step the specification takes:     *)
 (* the only things taken from the log are the two choices the              *)
-(* specification leaves open, the order of the moves at a node (checked to *)
-(* be a permutation of the position's moves with the table move first) and *)
-(* the deadline (Budget-th poll answers true, the hook's semantics).        *)
+(* specification leaves open, the order of the moves at a node and the     *)
+(* deadline (Budget-th poll answers true, the hook's semantics).  The      *)
+(* order is not just accepted: it must be the permutation order_moves /    *)
+(* order_captures produce - table move, captures by the MVV-LVA table,      *)
+(* killers of the ply, promotions, quiet moves by history, the rest;       *)
+(* stable - with the killer slots and history scores maintained here by    *)
+(* the operators of HeurFn.tla exactly as the search maintains them.       *)
 (* Everything else - windows handed to children, cut-offs, repetition and  *)
 (* table answers, mate / stalemate scores, bound labels, what is stored    *)
 (* and what is not after the deadline, the kept iteration, the fallback    *)
@@ -26,7 +30,7 @@
 (* That is reported as SPEC-DRIFT (the listed properties do not prescribe  *)
 (* the algorithm), never as a violation; the property-level audits decide. *)
 (***************************************************************************)
-EXTENDS Search, Json, IOUtils
+EXTENDS Search, Json, IOUtils, HeurFn
 
 Data == JsonDeserialize(IOEnv.TRACE)
 Evs == Data.events
@@ -47,8 +51,15 @@ RealINF == 32767                      \* src/search.rs INFINITY
 RealMATE == 2147482647                \* src/search.rs CHECKMATE_SCORE = i32::MAX - 1000
 TVals == Int
 
-VARIABLE l
-tvars == <<vars, l>>
+\* the ordering heuristics inside the running search (src/killer_moves.rs, src/history.rs via HeurFn.tla):
+\* kl = killer slots per ply, hs = history score per from/to key; both live as long as the Searcher
+VARIABLES l, kl, hs
+tvars == <<vars, l, kl, hs>>
+MA == Data.graph.mattr            \* per position, per generated move: <<type, attacker kind, kind on target, move id, history key>>
+Attr(q, j) == [type |-> MA[q][j][1], ak |-> MA[q][j][2], vk |-> MA[q][j][3], mid |-> MA[q][j][4], hid |-> MA[q][j][5]]
+IdxOf(q, c) == CHOOSE j \in 1..Len(Moves[q]) : Moves[q][j] = c
+KillerPlies == 64
+HistCap == 2147483647
 S == "s"
 Lab == pc[S]
 Has == l <= Len(Evs)
@@ -62,6 +73,20 @@ PermOf(s, t) == /\ Len(s) = Len(t)
                 /\ ToSet(s) = ToSet(t)
                 /\ Cardinality(ToSet(s)) = Len(s)
 IsMoveOf(q, m) == \E j \in 1..Len(Moves[q]) : Moves[q][j] = m
+
+\* order_moves: ascending by key, stable with respect to the generation order
+NKey(q, j, tm, pl) == LET a == Attr(q, j) IN OrderKey(a, Moves[q][j] = tm, IsKillerF(kl, a.mid, pl, KillerPlies), hs[a.hid])
+SortedBy(q, order, Key(_)) ==
+  \A x \in 1..(Len(order) - 1) :
+     LET gx == IdxOf(q, order[x])  gy == IdxOf(q, order[x + 1])
+     IN Key(gx) < Key(gy) \/ (Key(gx) = Key(gy) /\ gx < gy)
+\* order_captures: the quiescence list is generated in the order of graph.tact (all moves when in check)
+QGenIdx(q, c) == IF Chk[q] THEN IdxOf(q, c)
+                 ELSE CHOOSE x \in 1..Len(Data.graph.tact[q]) : Moves[q][Data.graph.tact[q][x]] = c
+QSorted(q, order) ==
+  \A x \in 1..(Len(order) - 1) :
+     LET kx == QuietOrderKey(Attr(q, IdxOf(q, order[x])))  ky == QuietOrderKey(Attr(q, IdxOf(q, order[x + 1])))
+     IN kx < ky \/ (kx = ky /\ QGenIdx(q, order[x]) < QGenIdx(q, order[x + 1]))
 
 Pops == Len(stack'[S]) < Len(stack[S])
 StopAfterPoll == armed /\ polls' >= Budget       \* the answer of the poll made in this step (PollMode)
@@ -88,10 +113,12 @@ Post ==
      /\ l' = l + 1
      /\ PermOf(E.ms, Moves[p[S]])
      /\ (e[S].move # NoMove /\ IsMoveOf(p[S], e[S].move)) => E.ms[1] = e[S].move
+     /\ LET q == p[S]  tm == e[S].move  pl == ply[S]  K(j) == NKey(q, j, tm, pl) IN SortedBy(q, E.ms, K)
   ELSE IF Lab = "q0" THEN
      /\ l' = l + 1
      /\ E.p = qp[S] /\ E.a = qa[S] /\ E.b = qb[S] /\ E.nodes = nodes' /\ E.polls = polls
      /\ PermOf(E.ms, QMoves(qp[S]))
+     /\ QSorted(qp[S], E.ms)
   ELSE IF Lab \in {"nr", "n0b", "n1r", "n1b", "n4"} /\ Pops THEN
      /\ Has /\ E.e = "X" /\ l' = l + 1
      /\ E.s = ret' /\ E.m = retMove'
@@ -115,12 +142,26 @@ Post ==
      /\ E.round = round
   ELSE l' = l
 
-TNext == Pre /\ StepS /\ Post
+\* what the search does to the heuristics: history is aged when a search starts; a QUIET move that causes a
+\* cut-off becomes the primary killer of its ply and earns depth^2 history
+HeurStep ==
+  IF Lab = "f0" THEN kl' = kl /\ hs' = AgeF(hs)
+  ELSE IF Lab = "n3" /\ Max2(alpha[S], -ret) >= beta[S]
+       THEN LET a == Attr(p[S], IdxOf(p[S], ms[S][i[S]]))
+            IN IF a.type = TypeQuiet
+               THEN /\ kl' = KStoreF(kl, a.mid, ply[S], KillerPlies)
+                    /\ hs' = [hs EXCEPT ![a.hid] = SatAddF(hs[a.hid], depth[S] * depth[S], HistCap)]
+               ELSE UNCHANGED <<kl, hs>>
+  ELSE UNCHANGED <<kl, hs>>
+
+TNext == Pre /\ StepS /\ Post /\ HeurStep
 
 TInit == /\ ev = TEv
          /\ ord = "fwd"
          /\ Init
          /\ l = 1
+         /\ kl = [q \in 0..(KillerPlies - 1) |-> <<>>]
+         /\ hs = [h \in 1..Data.graph.nh |-> 0]
          /\ TLCSet(1, 1)
          /\ TLCSet(2, 0)
 
